@@ -104,9 +104,9 @@ SilentConn == \E k \in Conns : \/ K \in {"smh.sent", "run.recv"} /\ SmhSend(k) /
 ConnAt(h) == [k \in Conns |-> [alive |-> alive[k], seqno |-> h[k], rtt |-> rtt[k]]]
 TRun ==
   CASE K \in {"run.tick", "upd.enter"} -> NoOp
-    [] K = "upd.locked" -> E.best = best /\ RunUpdAcq /\ hlo' = head /\ UNCHANGED <<strat, precv, rcur, armed, hsl>>
+    [] K = "upd.locked" -> E.best = best /\ E.nreg = Cardinality({w \in Waiters : reg[w]}) /\ RunUpdAcq /\ hlo' = head /\ UNCHANGED <<strat, precv, rcur, armed, hsl>>
     [] K = "upd.done" ->
-         /\ rpc = "upd_in"
+         /\ rpc = "upd_in" /\ E.nreg = Cardinality({w \in Waiters : reg[w]})
          /\ \E h1 \in hlo[1]..head[1], h2 \in hlo[2]..head[2], h3 \in hlo[3]..head[3], h4 \in hlo[4]..head[4] :
                E.best \in Choices(strat, ConnAt(<<h1, h2, h3, h4>>), best)
          /\ best' = E.best /\ WUnlock /\ rpc' = "idle"
